@@ -17,8 +17,8 @@ Example C02_lift_not_vacuous : nochange_guarded run_tables_v = true.
 Proof. reflexivity. Qed.
 
 (** fix-hasattr-call: [hasattr(x, "__call__")] -> [callable(x)]: only the builtin name [callable] is new *)
-Theorem C02_kernel_hasattr_names : forall a rest,
-  incl_str (names (hasattr_step (ECall BHasattr (a :: rest)))) (names (ECall BHasattr (a :: rest)) ++ builtin_names).
+Theorem C02_kernel_hasattr_names : forall cfg a rest,
+  incl_str (names (hasattr_step cfg (ECall BHasattr (a :: rest)))) (names (ECall BHasattr (a :: rest)) ++ builtin_names).
 Proof. exact C02_kernel_hasattr_step_names. Qed.
 Print Assumptions C02_kernel_hasattr_names.
 
@@ -42,3 +42,16 @@ Print Assumptions C02_kernel_invert_pinned_refuted.
 (** non-vacuity of the lifting theorem's premises: see RunLift.v (toy transformers) *)
 Example C02_example_names : incl_str (names (rw_set_literal (ECall BSet [EList [EName 1%N]]))) (names (ECall BSet [EList [EName 1%N]])).
 Proof. apply C02_kernel_set_literal_site. Qed.
+
+(** fix-empty-sequence-comparison introduces at most the builtin `bool`; literal-or-new-object-identity no name at all *)
+Theorem C02_kernel_empty_seq_names : forall cfg in_test e,
+  incl_str (names (empty_seq_new cfg (empty_seq_action in_test e) e)) (names e ++ builtin_names).
+Proof. exact RewriteFacts.C02_kernel_empty_seq_names. Qed.
+Print Assumptions C02_kernel_empty_seq_names.
+Theorem C02_kernel_identity_names : forall e e', identity_f e = Some e' -> names e' = names e.
+Proof. exact RewriteFacts.C02_kernel_identity_names. Qed.
+Print Assumptions C02_kernel_identity_names.
+Example C02_kernel_empty_seq_example :
+  List.In bool_name (names (empty_seq_new Types_Kernels.repaired_empty_seq (empty_seq_action false (ECmp true (EName 1%N) [(NotEq, EList [])]))
+                                                (ECmp true (EName 1%N) [(NotEq, EList [])]))).
+Proof. vm_compute. tauto. Qed.
